@@ -42,8 +42,12 @@ GRV_CMD(threads) {
     if (texts.size() > 400) texts.resize(400);
     FILE *tr = fopen(argv[5], "w"); if (!tr) { perror(argv[5]); return 2; }
     // sequential reference on a private face / font
+    std::vector<uint8_t> nameov;
+    if (argc > 7) { std::string hx = slurp(argv[7]); while (!hx.empty() && (hx.back() == '\n' || hx.back() == ' ')) hx.pop_back(); nameov = unhex(hx); }
     {
-        gr_face *rf = gr_make_file_face(font.c_str(), gr_face_preloadAll);
+        TableFace rtf; if (!rtf.load(font)) return 2;
+        if (!nameov.empty()) rtf.set("name", nameov);
+        gr_face *rf = rtf.make(gr_face_preloadAll);
         if (!rf) { fprintf(stderr, "cannot load %s\n", font.c_str()); return 2; }
         gr_font *rfont = gr_make_font(14.0f, rf);
         for (size_t i = 0; i < texts.size(); ++i) { fprintf(tr, "{\"e\":\"Ref\",\"key\":\"s%zu\",\"h\":\"%s\"}\n", i, shape_hash(rf, rfont, texts[i], dir).c_str()); fprintf(tr, "{\"e\":\"Ref\",\"key\":\"n%zu\",\"h\":\"%s\"}\n", i, shape_hash(rf, 0, texts[i], dir).c_str()); }
@@ -53,6 +57,7 @@ GRV_CMD(threads) {
     // the shared cold face, created through counting callbacks
     TableFace tf; tf.poison = true;
     if (!tf.load(font)) return 2;
+    if (!nameov.empty()) tf.set("name", nameov);
     tf.events.reserve(1024); tf.bufs.reserve(256);
     gr_face *face = tf.make(gr_face_preloadAll);
     if (!face) { fprintf(stderr, "shared face failed to load\n"); return 2; }
